@@ -126,3 +126,17 @@ Example C05_parse_examples :
    | _, _ => False
    end).
 Proof. vm_compute. repeat split; reflexivity. Qed.
+
+(* the same with the datatype factories of C13 plugged into the leaves (Model/LeafFull.v: DT, TM,
+   DTM, NM, SI and TN validate the value; STRICT raises ValueError where TOLERANT falls back to ST) *)
+From HL7 Require Import Model.LeafFull.
+Theorem C05_leaf_full_subset : forall v e dt s x,
+  leaf_enc_full v STRICT e dt s = Ok x -> leaf_enc_full v TOLERANT e dt s = Ok x.
+Proof. exact leaf_enc_full_subset. Qed.
+Print Assumptions C05_leaf_full_subset.
+
+Theorem C05_parse_segment_subset_full_leaf : forall v t e (text : str) reference s, tables_of v = Some t ->
+  parse_segment t STRICT e (leaf_enc_full v STRICT e) text reference = Ok s ->
+  parse_segment t TOLERANT e (leaf_enc_full v TOLERANT e) text reference = Ok s.
+Proof. exact shipped_parse_segment_subset_full. Qed.
+Print Assumptions C05_parse_segment_subset_full_leaf.
